@@ -250,6 +250,14 @@ def _builders():
     if ast.unparse(site_expr(sl, "_create_violation", "line")) != "info.line" or ast.unparse(site_expr(sl, "_create_violation", "column")) != "info.column":
         raise Unsupported("stateless _create_violation")
     out.append(("stateless", classify_line(calls[0].args[1]), classify_col(calls[0].args[2])))
+    # CQS: the analyzers record line / column of the function node, build_cqs_violation forwards pattern.line / pattern.column
+    cvb2 = L + "cqs/violation_builder.py"
+    if ast.unparse(site_expr(cvb2, "build_cqs_violation", "line")) != "pattern.line" or ast.unparse(site_expr(cvb2, "build_cqs_violation", "column")) != "pattern.column":
+        raise Unsupported("cqs violation does not forward pattern.line / pattern.column")
+    out.append(("cqs.py", classify_line(site_expr(L + "cqs/function_analyzer.py", "_build_pattern", "line", "FunctionAnalyzer")),
+                classify_col(site_expr(L + "cqs/function_analyzer.py", "_build_pattern", "column", "FunctionAnalyzer"))))
+    out.append(("cqs.ts", classify_line(site_expr(L + "cqs/typescript_function_analyzer.py", "_analyze_function", "line", "TypeScriptFunctionAnalyzer")),
+                classify_col(site_expr(L + "cqs/typescript_function_analyzer.py", "_analyze_function", "column", "TypeScriptFunctionAnalyzer"))))
     # file-placement: four factory functions, all line=1 column=0
     fp = L + "file_placement/violation_factory.py"
     fns = ["create_deny_violation", "create_allow_violation", "create_global_deny_violation", "create_global_allow_violation"]
